@@ -8,7 +8,7 @@ differently. Offset arithmetic of the string encoding is not decided here.
 """
 import re
 
-from .core import AnchorLost, matches_in, pat_leaves, res_name, short, walk
+from .core import AnchorLost, hir_calls, matches_in, pat_leaves, res_name, short, walk
 
 EXPLANATION = (
     "RF10/RF1 exhaustive-sibling rule over every match on HeapCellValueTag in the crate (typed HIR, "
@@ -36,6 +36,7 @@ EXCEPTIONS = {
 
 def run(ctx, R):
     F = ctx.facts()
+    list_walkers(F, R)
     R.rule("RF10/RF1: every tag dispatch that names Lis names PStrLoc (and conversely) or is a listed exception")
     n_both = 0
     n_one = 0
@@ -112,3 +113,37 @@ def run(ctx, R):
     R.floor("tag dispatches naming both list spellings", n_both, 35)
     R.floor("one-sided dispatches examined", n_one, 8)
     R.notes.append("both-sided sites: %d, one-sided sites: %d, exceptions used: %s" % (n_both, n_one, sorted(used)))
+
+
+def list_walkers(F, R):
+    """try_from_list collects the elements of a list for sort/2, keysort/2, atom_chars/2, ...: it walks cons cells in
+    try_from_inner_list and packed strings in try_from_partial_string. A list may switch between the two spellings at any
+    tail, so each walker must hand over to the other and must classify the remaining tail the same way ([] ends, a
+    variable is an instantiation error, anything else a type error)."""
+    tag = "types::HeapCellValueTag::"
+    il = F.find_impl("MachineState", None, "try_from_inner_list")
+    ps = F.find_impl("MachineState", None, "try_from_partial_string")
+
+    def summary(fn, other):
+        h = F.hir(fn)
+        tags = set()
+        for m in matches_in(h["body"], src=None):
+            if m["scrut"].get("ty") != "types::HeapCellValueTag":
+                continue
+            for arm in m["arms"]:
+                for leaf in pat_leaves(arm["pat"]):
+                    rn = res_name(leaf) or ""
+                    if rn.startswith(tag):
+                        tags.add(rn[len(tag):])
+        calls = {r for _, r, _ in hir_calls(h["body"])}
+        return tags, other in calls, any(c.endswith("::instantiation_error") for c in calls), any(c.endswith("::type_error") for c in calls)
+
+    t_il, il_to_ps, il_inst, il_ty = summary(il, ps)
+    t_ps, ps_to_il, ps_inst, ps_ty = summary(ps, il)
+    R.ob("C20:list-walkers:cons-walker-hands-over-to-string-walker", "PStrLoc" in t_il and il_to_ps, "try_from_inner_list must continue with try_from_partial_string at a packed-string tail", F.where(il))
+    R.ob("C20:list-walkers:string-walker-hands-over-to-cons-walker", "Lis" in t_ps and ps_to_il,
+         "try_from_partial_string must continue with try_from_inner_list when the characters are followed by a cons cell: partial_string(\"ba\", L, T), T = [1,2], sort(L, S) "
+         "raises type_error(list, ..) while the same list of cons cells sorts", F.where(ps))
+    R.ob("C20:list-walkers:same-tail-classification", (il_inst, il_ty) == (ps_inst, ps_ty) == (True, True) and "Atom" in t_il and "Atom" in t_ps,
+         "both walkers must end at [], raise instantiation_error at an unbound tail and type_error(list, _) otherwise; cons walker: inst=%s type=%s, string walker: inst=%s type=%s"
+         % (il_inst, il_ty, ps_inst, ps_ty), F.where(ps))
